@@ -32,6 +32,18 @@ use std::{
 thread_local! {
     /// (bytes to hand out or None = fail, log of request sizes)
     static ENTROPY: RefCell<(Option<Vec<u8>>, Vec<usize>, bool)> = RefCell::new((None, Vec::new(), false));
+    /// errno reported by a failing request (EIO unless the case says otherwise)
+    static ENTROPY_ERRNO: RefCell<i32> = RefCell::new(5);
+}
+
+extern "C" {
+    fn __errno_location() -> *mut i32;
+}
+
+fn fail_with_errno() -> i32 {
+    let n = ENTROPY_ERRNO.with(|e| *e.borrow());
+    unsafe { *__errno_location() = n };
+    -1
 }
 
 #[no_mangle]
@@ -42,7 +54,7 @@ pub unsafe extern "C" fn getentropy(buf: *mut u8, len: usize) -> i32 {
         if !e.2 {
             // not armed: behave like a failing source so that nothing
             // un-injected can go unnoticed
-            return -1;
+            return fail_with_errno();
         }
         match &e.0 {
             Some(bytes) if bytes.len() >= len => {
@@ -51,7 +63,7 @@ pub unsafe extern "C" fn getentropy(buf: *mut u8, len: usize) -> i32 {
                 e.0 = Some(rest);
                 0
             }
-            _ => -1,
+            _ => fail_with_errno(),
         }
     })
 }
@@ -196,8 +208,13 @@ fn run_op(line: &str) -> R {
         "mn.random" => {
             // mn.random <words> <entropy-hex | fail>
             let words: usize = arg(1)?.parse().map_err(e)?;
+            // `fail` = every request fails with EIO; `failN` = with errno N
             let inject = match arg(2)? {
-                "fail" => None,
+                f if f.starts_with("fail") => {
+                    let n: i32 = if f.len() > 4 { f[4..].parse().map_err(|_| "harness: bad errno".to_string())? } else { 5 };
+                    ENTROPY_ERRNO.with(|e| *e.borrow_mut() = n);
+                    None
+                }
                 h => Some(unhex(h)?),
             };
             arm_entropy(inject);
